@@ -1,4 +1,129 @@
-import OdakProofs.Lemmas.Mat3
-import OdakModel.Geometry
+import OdakModel.Generated.Loops
+import OdakProofs.Lemmas.Geometry
+import Mathlib.Analysis.SpecificLimits.Basic
+
+/-! # C12 – termination and flagging of the refraction loop, counter-capped loops
+  `refrLoop a b err fuel it t eps` is the model of `while eps > error: …` with fuel;
+  `refrIter a b k` is the `k`-th Newton iterate from the code's start value `-b/(2a)`;
+  `D = a² - b` is the discriminant (negative ⇔ total internal reflection). -/
 namespace Odak
+
+/-- without total internal reflection every Newton step is at most half as long as the previous one -/
+theorem C12_newton_step_halves (a b : ℝ) (hD : 0 ≤ a ^ 2 - b) (ha : a ≠ 0) (k : Nat) :
+    |refrIter a b (k + 2) - refrIter a b (k + 1)| ≤ |refrIter a b (k + 1) - refrIter a b k| / 2 ∧
+    |refrIter a b (k + 1) - refrIter a b k| ≤ |refrIter a b 1 - refrIter a b 0| / 2 ^ k :=
+  ⟨refrIter_step_halves hD ha k, refrIter_step_bound hD ha k⟩
+
+/-- explicit iteration bound: if `δ₀ / 2^N ≤ err` (δ₀ the first step length) the loop exits normally
+    after at most `N + 1` passes whenever it is given at least that much fuel, returning the iterate
+    `t_{j+1}` at the first `j` whose step `|t_j - t_{j+1}|` is within `err` -/
+theorem C12_newton_iteration_bound (a b err : ℝ) (hD : 0 ≤ a ^ 2 - b) (ha : a ≠ 0) (herr : 0 < err)
+    (N : Nat) (hN : |refrIter a b 0 - refrIter a b 1| / 2 ^ N ≤ err) (fuel : Nat) (hf : N + 1 ≤ fuel) :
+    ∃ j, j ≤ N ∧ |refrIter a b j - refrIter a b (j + 1)| ≤ err ∧
+      refrLoop a b err fuel 0 (refrStart a b) (err * Num.two) = .ok (refrIter a b (j + 1)) (j + 1) := by
+  have hstep : |refrIter a b N - refrIter a b (N + 1)| ≤ err := by
+    rw [abs_sub_comm]
+    refine (refrIter_step_bound hD ha N).trans ?_
+    rw [abs_sub_comm]; exact hN
+  have he : err < err * Num.two := by rw [num_two]; linarith
+  obtain ⟨j, hj, hjs, hres⟩ := refrLoop_ok a b err N fuel 0 (refrStart a b) (err * Num.two) hf hstep he
+  refine ⟨j, hj, hjs, ?_⟩
+  rw [hres, Nat.zero_add]; rfl
+
+/-- the Newton loop terminates: for `0 ≤ a² - b`, `a ≠ 0`, `0 < err` there is a number of passes `N + 1`
+    such that with any fuel `≥ N + 1` the loop returns normally within `N + 1` iterations -/
+theorem C12_newton_terminates (a b err : ℝ) (hD : 0 ≤ a ^ 2 - b) (ha : a ≠ 0) (herr : 0 < err) :
+    ∃ N : Nat, ∀ fuel, N + 1 ≤ fuel → ∃ t it, it ≤ N + 1 ∧
+      refrLoop a b err fuel 0 (refrStart a b) (err * Num.two) = .ok t it := by
+  obtain ⟨N, hN⟩ := pow_unbounded_of_one_lt (|refrIter a b 0 - refrIter a b 1| / err) (one_lt_two (α := ℝ))
+  refine ⟨N, fun fuel hf => ?_⟩
+  have hN' : |refrIter a b 0 - refrIter a b 1| / 2 ^ N ≤ err := by
+    rw [div_lt_iff₀ herr] at hN
+    rw [div_le_iff₀ (by positivity)]; linarith
+  obtain ⟨j, hj, _, hres⟩ := C12_newton_iteration_bound a b err hD ha herr N hN' fuel hf
+  exact ⟨_, _, by omega, hres⟩
+
+/-- the same for the model's `refractTau` (no TIR, non-zero `a`): never `.tir`, never `.noConvergence`
+    once the fuel suffices -/
+theorem C12_refract_terminates (mu err : ℝ) (d n : Vec3 ℝ)
+    (hD : 0 ≤ (refrA mu d n) ^ 2 - refrB mu n) (ha : refrA mu d n ≠ 0) (herr : 0 < err) :
+    ∃ N : Nat, ∀ fuel, N + 1 ≤ fuel → ∃ t it, it ≤ N + 1 ∧ refractTau mu err d n fuel = .ok t it := by
+  obtain ⟨N, h⟩ := C12_newton_terminates _ _ err hD ha herr
+  refine ⟨N, fun fuel hf => ?_⟩
+  have hno : ¬ (Num.sq (refrA mu d n) - refrB mu n < 0) := by
+    rw [num_sq, ← pow_two]; exact not_lt.mpr hD
+  simp only [refractTau, if_neg hno]
+  exact h fuel hf
+
+/-- total internal reflection (`a² - b < 0`) is flagged before the loop, for every fuel -/
+theorem C12_tir_flagged (mu err : ℝ) (d n : Vec3 ℝ) (fuel : Nat)
+    (hD : (refrA mu d n) ^ 2 - refrB mu n < 0) :
+    refractTau mu err d n fuel = .tir := by
+  have hD' : Num.sq (refrA mu d n) - refrB mu n < 0 := by rw [num_sq, ← pow_two]; exact hD
+  simp only [refractTau, if_pos hD']
+
+/-- …and has to be: for `a² - b < 0` every Newton step is at least `√(b - a²)` long, so the
+    un-flagged loop could never exit for `err < √(b - a²)` -/
+theorem C12_tir_would_not_terminate (a b t : ℝ) (_hD : a ^ 2 - b < 0) (hs : t + a ≠ 0) :
+    Real.sqrt (b - a ^ 2) ≤ |refrStep a b t - t| := by
+  rw [Real.sqrt_le_left (abs_nonneg _), sq_abs, refrStep_sub, newtonStep_sub, div_pow,
+    le_div_iff₀ (by positivity)]
+  nlinarith [sq_nonneg ((t + a) ^ 2 - (b - a ^ 2))]
+
+/-- a loop with a counter cap `limit` (give up when `counter > limit`) always returns and executes its
+    body at most `limit + 1 - counter` times (`limit + 1` from a zero counter); a regular exit returns a
+    state satisfying `done`, namely the body iterated that many times -/
+theorem C12_capped_loop_bounded {σ : Type} (limit : Nat) (body : σ → σ) (done : σ → Bool)
+    (counter : Nat) (s : σ) :
+    (cappedLoop limit body done counter s).2 ≤ limit + 1 - counter ∧
+    (cappedLoop limit body done 0 s).2 ≤ limit + 1 ∧
+    ∀ s', (cappedLoop limit body done counter s).1 = some s' →
+      done s' = true ∧ s' = body^[(cappedLoop limit body done counter s).2] s := by
+  have main : ∀ (m counter : Nat) (s : σ), limit + 1 - counter = m →
+      (cappedLoop limit body done counter s).2 ≤ m ∧
+      ∀ s', (cappedLoop limit body done counter s).1 = some s' →
+        done s' = true ∧ s' = body^[(cappedLoop limit body done counter s).2] s := by
+    intro m
+    induction m with
+    | zero =>
+      intro c s hm
+      rw [cappedLoop]
+      by_cases hd : done s = true
+      · simp [hd]
+      · have hl : limit < c := by omega
+        simp [hd, hl]
+    | succ m ih =>
+      intro c s hm
+      rw [cappedLoop]
+      by_cases hd : done s = true
+      · simp [hd]
+      · by_cases hl : limit < c
+        · simp [hd, hl]
+        · obtain ⟨h1, h2⟩ := ih (c + 1) (body s) (by omega)
+          simp only [hd, hl, if_false, Bool.false_eq_true]
+          refine ⟨by omega, fun s' hs' => ?_⟩
+          obtain ⟨g1, g2⟩ := h2 s' hs'
+          exact ⟨g1, by rw [Function.iterate_succ_apply]; exact g2⟩
+  exact ⟨(main _ counter s rfl).1, (main _ 0 s rfl).1, (main _ counter s rfl).2⟩
+
+/-- non-vacuity of the termination hypotheses (`a = 1/2`, `b = -3/4`: `a² - b = 1`) and of the TIR
+    guard (`a = 0`, `b = 1`: grazing incidence from the dense side) -/
+example : (0 : ℝ) ≤ (1 / 2 : ℝ) ^ 2 - (-3 / 4) ∧ (1 / 2 : ℝ) ≠ 0 ∧ ((0 : ℝ) ^ 2 - 1 < 0) := by norm_num
+
+/-- non-vacuity: a capped loop that never finishes hits the cap after exactly `limit + 1` bodies -/
+example : cappedLoop 3 (fun n : Nat => n + 1) (fun _ => false) 0 0 = (none, 4) := by
+  simp [cappedLoop]
+
+end Odak
+
+namespace Odak
+open Odak.Gen in
+/-- [regenerated table of every `while` loop under odak/] every loop in a raytracing routine either
+    increments a counter that is compared with a limit on an exit path (then `C12_capped_loop_bounded`
+    bounds it) or is the refraction root finder, which flags the unsolvable case before the loop
+    (`C12_tir_flagged`) and terminates otherwise (`C12_refract_terminates`). -/
+theorem C12_every_raytracing_while_capped_or_proved :
+    ∀ l ∈ whileLoops, (l.file.startsWith "odak/raytracing" || l.file.startsWith "odak/learn/raytracing") = true →
+      l.capped = true ∨ (l.fn = "refract" ∧ refractFlagsTir = true) := by
+  decide +kernel
 end Odak
